@@ -1,11 +1,13 @@
 #!/bin/bash
-# import the output of a round-2 seed agent (/tmp/wt/r2_<ID>/out/{changeK.diff,demoK.py,metaK.json}) as seeded/<ID>-(K+2)
-ID=$1
+# import the output of a seed agent of round $ROUND (default 2): /tmp/wt/r<ROUND>_<ID>/out/{changeK.diff,demoK.py,metaK.json}
+# becomes seeded/<ID>-(K + 2*(ROUND-1)); reproducers of pre-existing defects are kept under seeded/preexisting_reports/<ID>/
+ID=$1; ROUND=${ROUND:-2}
+src=/tmp/wt/r${ROUND}_$ID/out
 for k in 1 2; do
-  src=/tmp/wt/r2_$ID/out
   [ -f $src/change$k.diff ] || continue
-  dst=/verif/seeded/$ID-$((k+2)); mkdir -p $dst
+  dst=/verif/seeded/$ID-$((k+2*(ROUND-1))); mkdir -p $dst
   cp $src/change$k.diff $dst/patch.diff; cp $src/demo$k.py $dst/demo.py
   [ -f $src/meta$k.json ] && cp $src/meta$k.json $dst/agent_meta.json
 done
+if ls $src/preexisting_*.py >/dev/null 2>&1; then mkdir -p /verif/seeded/preexisting_reports/$ID; cp $src/preexisting_*.py /verif/seeded/preexisting_reports/$ID/; fi
 ls -d /verif/seeded/$ID-*
